@@ -41,7 +41,8 @@ def gen_op(rng, t, mostly_acc=False):
     o = {'op': n, 't': t}
     if n in ('get', 'setdefault'):
         o['k'] = rng.choice(KEYS)
-        o['v'] = gen_value(rng, 2)
+        if rng.random() < 0.7:
+            o['v'] = gen_value(rng, 2)
     elif n in ('getitem', 'contains', 'delitem'):
         o['k'] = rng.choice(KEYS)
     elif n in ('update', 'ior'):
@@ -54,11 +55,20 @@ def gen_op(rng, t, mostly_acc=False):
         o['k'] = rng.choice(KEYS)
         o['v'] = gen_value(rng)
     elif n == 'flash':
-        o['v'] = gen_value(rng, 2)
-        o['q'] = rng.choice(QUEUES)
-        o['dup'] = rng.random() < 0.6
+        # few distinct messages, so that an equal message is often already queued; optional arguments are left out
+        # in a third of the calls each (the defaults are part of the API: ISession.flash(msg, queue='', allow_duplicate=True))
+        o['v'] = rng.choice(['m', 'm', 'warn', 1, True, ['m'], None]) if rng.random() < 0.6 else gen_value(rng, 2)
+        if rng.random() < 0.65:
+            o['q'] = rng.choice(QUEUES)
+        if rng.random() < 0.6:
+            o['dup'] = rng.random() < 0.6
+        if rng.random() < 0.3:
+            o['kw'] = True
     elif n in ('pop_flash', 'peek_flash'):
-        o['q'] = rng.choice(QUEUES)
+        if rng.random() < 0.65:
+            o['q'] = rng.choice(QUEUES)
+        if rng.random() < 0.3:
+            o['kw'] = True
     elif n in ('new_csrf_token', 'get_csrf_token'):
         o['tok'] = gen_tok(rng)
     return o
@@ -269,6 +279,9 @@ def valid(case):
                 return False
             for op in r['ops']:
                 if op['op'] not in OPCODE or not _okt(op['t']):
+                    return False
+                if ('kw' in op and op['kw'] is not True) or ('q' in op and not isinstance(op['q'], str)) \
+                        or ('dup' in op and not isinstance(op['dup'], bool)):
                     return False
                 if 'k' in op and not isinstance(op['k'], str):
                     return False
